@@ -119,4 +119,127 @@ def targets(tier):
                    ensures=[("reply-is-accumulated-nothing-lost", ens_reply)], exc_ensures=[("blocker-re-raised", exc_reply)], raises=(CompileError, AssertionError, KeyError),
                    overrides=OV, field_types=FT,
                    note="ModuleResult and SCC objects are abstract identities; AssertionError: message shape is the worker's obligation; KeyError: scc ids are the coordinator's own"),
-            __import__("pyvc.runner", fromlist=["StaticCheck"]).StaticCheck("worker.replay_context", check_replay_context, note="ordering frame decided on the source")]
+            __import__("pyvc.runner", fromlist=["StaticCheck"]).StaticCheck("worker.replay_context", check_replay_context, note="ordering frame decided on the source")] + iface_targets() + impl_targets()
+
+
+# ---- every module of an SCC goes on from the interface phase to the implementation phase: the list
+# process_stale_scc_interface returns is what the worker iterates to check function bodies, so a module
+# that is missing from it never has its bodies checked ('a parallel build reports the same diagnostics as
+# the sequential build', whether or not a cache record could be written for the module)
+
+
+class FakeManager2:
+    def commit_module(self, meta_file):
+        raise NotImplementedError
+
+
+def setup_iface_entry(I):
+    import mypy.build as B
+    import mypy.cache as C
+
+    mid = I.make(TStr(), "id")
+    meta = I.make(TObj(C.CacheMeta), "meta")
+    meta.cands = [C.CacheMeta]
+    meta_file = I.make(TStr(), "meta_file")
+    has_record = I.ctx.choose(2, "cache-record-written?")
+    tup = STuple([meta, meta_file]) if has_record else NONE
+    state = I.make(TObj(B.State), "state")
+    state.cands = [B.State]
+    graph = SDict([(mid, state)])
+    scc_result = SList([])
+    manager = I.new_object(FakeManager2)
+    return {"args": [], "locals": {"id": mid, "meta_tuples": SDict([(mid, tup)]), "graph": graph, "manager": manager, "scc_result": scc_result, "stale": SList([mid])},
+            "id": mid, "scc_result": scc_result, "has_record": has_record, "meta_file": meta_file}
+
+
+def ens_iface_entry(I, env, res):
+    items = env["scc_result"].items
+    if len(items) != 1 or not isinstance(items[0], STuple) or len(items[0].items) != 3:
+        return z3.BoolVal(False)
+    first, _, third = items[0].items
+    writes = [e for e in I.ctx.events if e[0] in ("write_cache_meta", "commit_module")]
+    if env["has_record"]:
+        ok = isinstance(third, SStr) and [e[0] for e in writes] == ["write_cache_meta", "commit_module"]
+        return z3.And(first.t == env["id"].t, z3.BoolVal(ok), third.t == env["meta_file"].t if isinstance(third, SStr) else z3.BoolVal(False))
+    return z3.And(first.t == env["id"].t, z3.BoolVal(third is NONE and not writes))
+
+
+def iface_targets():
+    import mypy.build as B
+
+    ft = {("State", "interface_hash"): TBytes(), ("State", "dependencies"): TSeq(TStr()), ("State", "priorities"): TMap(TStr(), TInt()), ("CacheMeta", "dep_hashes"): TSeq(TBytes())}
+    ov = {"mypy.build:write_cache_meta": lambda I, a, k: (I.ctx.events.append(("write_cache_meta",) + tuple(a)), NONE)[1],
+          "contracts.coord:FakeManager2.commit_module": lambda I, a, k: (I.ctx.events.append(("commit_module",) + tuple(a[1:])), NONE)[1],
+          "mypy.build:ModuleResult": lambda I, a, k: I.new_object(B.ModuleResult)}
+    return [Target("coord.process_stale_scc_interface.result_entry", "mypy.build:process_stale_scc_interface", setup_iface_entry,
+                   loop_body=("for id in stale", "meta_tuple = meta_tuples[id]"), ensures=[("every-module-of-the-scc-goes-on-to-the-implementation-phase", ens_iface_entry)],
+                   raises=(KeyError,), overrides=ov, field_types=ft,
+                   note="one generic module of the SCC, with and without a cache record; dependency hashes of the record are not part of this contract (KeyError: that every dependency is in the graph is the caller's invariant)")]
+
+
+# ---- implementation phase, one generic module: its diagnostics are returned whenever the module is not
+# an ignored file -- with or without a cache record -- and cache writes happen only for a module that has one
+
+
+class FakeErrors2:
+    ignored_files: set
+
+    def file_messages(self, path):
+        raise NotImplementedError
+
+    def format_messages(self, path, errors, formatter=None):
+        raise NotImplementedError
+
+
+class FakeManager3:
+    errors: FakeErrors2
+    error_formatter: object
+
+    def commit_module(self, meta_file):
+        raise NotImplementedError
+
+
+def setup_impl_entry(I):
+    import mypy.build as B
+
+    mid = I.make(TStr(), "id")
+    meta_file = I.make(TOpt(TStr()), "meta_file") if False else None
+    has_record = I.ctx.choose(2, "cache-record-written?")
+    mf = I.make(TStr(), "meta_file") if has_record else NONE
+    state = I.make(TObj(B.State), "state")
+    state.cands = [B.State]
+    manager = I.new_object(FakeManager3)
+    errs = I.new_object(FakeErrors2)
+    errs.fields["ignored_files"] = I.make(TSet(TStr()), "ignored_files")
+    manager.fields["errors"] = errs
+    manager.fields["error_formatter"] = NONE
+    scc_result = SDict([])
+    return {"args": [], "locals": {"id": mid, "meta_file": mf, "graph": SDict([(mid, state)]), "manager": manager, "scc_result": scc_result, "stale": SList([mid])},
+            "id": mid, "state": state, "errs": errs, "scc_result": scc_result, "has_record": has_record}
+
+
+def ens_impl_entry(I, env, res):
+    ignored = z3.Select(I.getattr(env["errs"], "ignored_files").t, I.getattr(env["state"], "xpath").t)
+    writes = [e[0] for e in I.ctx.events if e[0] in ("write_cache_meta_ex", "commit_module")]
+    ents = env["scc_result"].entries
+    returned = len(ents) == 1
+    if len(ents) > 1 or (returned and not isinstance(ents[0][0], SStr)):
+        return z3.BoolVal(False)
+    cache_ok = writes == (["write_cache_meta_ex", "commit_module"] if env["has_record"] else [])
+    if returned:
+        return z3.And(z3.Not(ignored), ents[0][0].t == env["id"].t, z3.BoolVal(cache_ok))
+    return z3.And(ignored, z3.BoolVal(cache_ok))
+
+
+def impl_targets():
+    import mypy.build as B
+
+    ft = {("State", "interface_hash"): TBytes(), ("State", "dependencies"): TSeq(TStr()), ("State", "suppressed"): TSeq(TStr()), ("State", "priorities"): TMap(TStr(), TInt()),
+          ("State", "xpath"): TStr()}
+    rec_ = lambda tag: (lambda I, a, k: (I.ctx.events.append((tag,) + tuple(a)), NONE)[1])
+    ov = {"mypy.build:write_cache_meta_ex": rec_("write_cache_meta_ex"), "contracts.coord:FakeManager3.commit_module": rec_("commit_module"),
+          "contracts.coord:FakeErrors2.file_messages": returns(TSeq(TStr()), "errors"), "contracts.coord:FakeErrors2.format_messages": returns(TSeq(TStr()), "formatted"),
+          "mypy.build:ModuleResult": lambda I, a, k: I.new_object(B.ModuleResult), "mypy.build:CacheMetaEx": lambda I, a, k: I.new_object(__import__("mypy.cache", fromlist=["x"]).CacheMetaEx)}
+    return [Target("coord.process_stale_scc_implementation.result_entry", "mypy.build:process_stale_scc_implementation", setup_impl_entry,
+                   loop_body=("for id, meta_file in zip(stale, meta_files)", None), ensures=[("diagnostics-returned-unless-ignored-cache-written-only-with-a-record", ens_impl_entry)],
+                   raises=(KeyError,), overrides=ov, field_types=ft, forget_order_facts=True, note="one generic module, with and without a cache record (KeyError: graph closure is the caller's invariant)")]
